@@ -688,7 +688,14 @@ where
         }
         VectorDiff::Truncate { length: new_length } => {
             // Keep values where their `unsorted_index` is lower than the `new_length`.
-            buffered_vector.retain(|(unsorted_index, _)| *unsorted_index < new_length);
+            //
+            // Not `Vector::retain`: as of imbl 5.0 it mixes up (and can duplicate) elements
+            // of vectors that consist of more than one chunk.
+            *buffered_vector = buffered_vector
+                .iter()
+                .filter(|(unsorted_index, _)| *unsorted_index < new_length)
+                .cloned()
+                .collect();
             result.push(VectorDiff::Truncate { length: new_length });
         }
         VectorDiff::Reset { values: new_values } => {
